@@ -5,6 +5,10 @@ from . import chainrules, witness
 def run(ctx):
     facts = ctx.facts("dev")
     ctx.decided += [
+        "W5 StyledList::fmt, path by path: every move printed is mv.styled(board, self.style) of the pair the walker returned, in walker "
+        "order; the first move carries 'N. ' (White) or 'N... ' (Black), later moves ' N.' exactly when White is to move on the walker's "
+        "board, with N = that board's number - the first board's number + the start number; nothing else is printed except the final "
+        "status token from the stored outcome (format templates decoded from the compiled constants)",
         'W3 the borrow checker rejects mutating a chain while a walker over it is alive (E4 witness), so a walker never observes a changed move list',
         "W1 Walker::set_board_pos has a backward and a forward *loop* guarded by board_pos > / < target (so it exits only with board_pos == "
         "target); backward = decrement then unmake(stack[board_pos]), forward = make(stack[board_pos]) then increment",
@@ -21,3 +25,4 @@ def run(ctx):
     chainrules.status_rule(ctx, facts, "W4")
     witness.cf_rule(ctx, 'W3', ('cf/C17/',),
                     'a chain cannot be mutated while a Walker borrows it (compile-fail witness E0502 with compiling twin)')
+    chainrules.styled_list_rule(ctx, facts, "W5")
